@@ -11,6 +11,64 @@ VERIF = os.path.dirname(os.path.dirname(os.path.abspath(__file__)))
 TECH = "deterministic simulation with fault injection"
 
 CHECKS = {
+    "C02": dict(
+        engine="runner",
+        category="exploration",
+        technique=TECH + " (fault-free configuration): real solve under the file-system seam (permuted listings, seeded temp names, simulated pool), oracle over the recorded history (computation-step call log, seam trace) and the archive read back independently, against an independent flavour-number path model",
+        text=(
+            "Seeded cards (1-5 targets, paths of 1-7 blocks, 0-3 matchings, upward / downward / mixed across targets, targets on a matching scale, one ulp beside it, equal to the initial point; any matching ratios) are solved by the real runner; "
+            "then (1) every part was computed exactly once and every parts file opened for writing exactly once, (2) the archived recipes and parts equal the union over targets of the blocks of an independent 20-line reference of the flavour-number path - nothing missing, nothing extra, no duplicates, "
+            "(3) every stored operator equals P_n...P_1 (later steps on the left) of the ARCHIVED parts looked up by physical identity, to rtol 1e-10. Bulk runs use stub physics (dense, non-commuting pseudo-random parts keyed by the recipe header), a sample runs the real interpreted kernels."
+        ),
+        note="The error array is not part of the verdict (its propagation rule is C44); the cliff flag is not part of a part's identity; product association order is not prescribed (rtol 1e-10, atol 1e-13*max).",
+        design="DESIGN.md section 4 (C02)",
+    ),
+    "C03": dict(
+        engine="pool",
+        category="exploration",
+        technique=TECH + ": the integration worker pool replaced by SimPool (seeded cooperative scheduler, pickled transport, stdlib chunking), seeded search over pool widths, chunk->worker assignments and delivery orders; plus all target permutations and subsets",
+        text=(
+            "Integration level: one part (evolution segment or matching, real interpreted kernels) is computed on the sequential path and under SimPool for several widths (incl. negative core counts resolved against a simulated cpu count) and seeded schedules; results must be bitwise equal. "
+            "Runner level: a baseline solve on one core is compared bitwise, target by target, with solves of every permutation of the targets, every proper non-empty subset, and the same card on simulated pools. "
+            "The thorough tier additionally compares a sample against the real multiprocessing (fork) Pool to validate the stub."
+        ),
+        note="SimPool models multiprocessing.Pool at item granularity with pickled transport; per-worker process-global state and killed workers are not modelled. Error arrays are compared as a probe only.",
+        design="DESIGN.md section 4 (C03), 2.3",
+    ),
+    "C17": dict(
+        engine="couplings",
+        category="exploration",
+        technique=TECH + " at library scale: a long-lived Couplings object (memo cache included) driven through seeded histories of queries, caller-side mutations of returned arrays (alias-mutation faults) and pickle clones, against a memoryless reference model",
+        text=(
+            "Per run one seeded configuration (QCD order 1-4, QED order 0-2, running alpha_em on/off, exact/expanded, POLE/MSBAR, masses, matching ratios, reference point anywhere incl. exactly on a matching scale and in a non-natural nf patch) and a history of 1-30 operations: "
+            "a / a_s / a_em queries over a pool with every matching scale, the reference scale, m_tau^2 and their near neighbours, repeats, in-place mutation of the returned array by the caller, pickle round-trip of the object (what each pool task does). "
+            "Every answer must be bitwise the answer of a freshly constructed object; both must raise or both return."
+        ),
+        note="Reference = same code on a fresh object (the property is history independence, not correctness of the RGE solution, which is C15).",
+        design="DESIGN.md section 5 (C17)",
+    ),
+    "C24": dict(
+        engine="hcache",
+        category="exploration",
+        technique=TECH + " at library scale: seeded lookup histories over several harmonic-sum caches (N, N+1, conj N), oracle over the recorded history: order independence, slot audit, cross-cache recurrences, exact definitions at integer N",
+        text=(
+            "Per run 1-3 base points (integers 1-60, or complex with Re N in [0.5,50], |Im N| up to 60), three caches each (N; N+1 with flipped parity; conj N) and a seeded history of get(key) lookups (short, random with repeats, full permutations, reverse order, interleaved between caches). "
+            "Every returned value must equal the value of a fresh single-lookup cache; at integer N with the matching parity flag it must equal the exact rational nested sum (or the defining integral for g3); after the history every filled slot must equal direct evaluation (catches a lookup poisoning another key's slot); "
+            "the one-step recurrences between the caches at N and N+1 and conjugation between N and conj N are checked as cross-invariants."
+        ),
+        note="Only the cache-resident functions are covered; the clause on Mellin transforms of log/g-functions outside the cache is pure quadrature and is not decided by this technique. Tolerances are 10x the worst deviation measured on the unchanged tree.",
+        design="DESIGN.md section 5 (C24)",
+    ),
+    "C47": dict(
+        engine="repro",
+        category="exploration",
+        technique=TECH + ": the same cards solved in two fresh interpreters under two adversarially different simulated environments (PYTHONHASHSEED, temp names, cwd, listing order, clock, cpu count -> pool width, pool schedule), archives compared member by member",
+        text=(
+            "Each pair runs the full solver (real interpreted kernels) twice; everything the simulator owns differs between the two runs. The two archives must have the same member names, bitwise-identical decoded operator arrays (final operators and parts), and byte-identical YAML members (cards, metadata, recipes, headers)."
+        ),
+        note="Raw .npz bytes are not compared (np.savez embeds zip timestamps); tar mtimes/member order are ignored; error-array-only differences are a probe.",
+        design="DESIGN.md section 4 (C47)",
+    ),
     "C38": dict(
         engine="crash",
         category="fault_enumeration",
@@ -99,6 +157,11 @@ def main():
         else:
             na.append(dict(property_id=pid, reason="not a simulation target: " + na_reasons.get(pid, "pure function of its inputs")))
     engines = [
+        dict(name="runner", path="ekosim/engines/runner.py", serves_properties=["C02"], kind_free_text="history + archive oracle on real solves"),
+        dict(name="pool", path="ekosim/engines/pool.py", serves_properties=["C03"], kind_free_text="seeded schedules of the simulated worker pool; target permutations/subsets"),
+        dict(name="couplings", path="ekosim/engines/couplings.py", serves_properties=["C17"], kind_free_text="query histories vs memoryless reference"),
+        dict(name="hcache", path="ekosim/engines/hcache.py", serves_properties=["C24"], kind_free_text="lookup histories over harmonic caches"),
+        dict(name="repro", path="ekosim/engines/repro.py", serves_properties=["C47"], kind_free_text="paired runs in fresh interpreters under different environments"),
         dict(name="crash", path="ekosim/engines/crash.py", serves_properties=["C38"], kind_free_text="fault enumeration over seam events of seeded sessions"),
         dict(name="store", path="ekosim/engines/store.py", serves_properties=["C36", "C37", "C39"], kind_free_text="operation histories vs persistent-map reference model"),
     ]
